@@ -4,6 +4,7 @@ import (
 	"fmt"
 	"strings"
 	"sync"
+	"sync/atomic"
 	"testing"
 	"time"
 
@@ -145,7 +146,7 @@ func runC20(c c20Case) Result {
 	}
 	// settle polls until the endpoint's totals equal the client's tally and nothing is in flight.
 	settle := func() (string, string) {
-		deadline := time.Now().Add(20 * time.Second)
+		deadline := time.Now().Add(90 * time.Second) // returns as soon as settled; patience only costs on the failing path
 		var last scrape
 		for {
 			last = ts.scrape(5 * time.Second)
@@ -223,7 +224,7 @@ func runC20(c c20Case) Result {
 					default:
 					}
 					t0 := time.Now()
-					sc := ts.scrape(5 * time.Second)
+					sc := ts.scrape(60 * time.Second)
 					observations = append(observations, obs{t0, time.Now(), sc})
 					time.Sleep(5 * time.Millisecond)
 				}
@@ -250,8 +251,15 @@ func runC20(c c20Case) Result {
 					winStart, winEnd = res.Start, res.End
 				}
 			}
-			inside, sawInFlight := 0, false
+			inside, sawInFlight, slowScrapes := 0, false, 0
+			_ = slowScrapes
 			for _, o := range observations {
+				if o.sc.Err != "" && scrapeTimedOut(o.sc.Err) {
+					// a slow answer is not a verdict (the machine may be overloaded); availability while requests are in
+					// flight is decided by the held step, where the harness controls how long they stay in flight
+					slowScrapes++
+					continue
+				}
 				if o.sc.Err != "" || o.sc.Status != 200 {
 					return bad(c.Mode+"/burst", "metrics:unavailable-under-load", "step %d: scrape during a burst failed: status %d err %q after %v", si, o.sc.Status, o.sc.Err, o.sc.Elapsed)
 				}
@@ -289,6 +297,26 @@ func runC20(c c20Case) Result {
 			dl := time.Now().Add(10 * time.Second)
 			for time.Now().Before(dl) {
 				sc := ts.scrape(10 * time.Second)
+				if sc.Err != "" && scrapeTimedOut(sc.Err) {
+					// Slow is not unavailable. The requests stay in flight for as long as the harness holds them, so a scrape
+					// that is really blocked behind them stays blocked: ask again with minutes of patience, then release the
+					// requests and ask once more as a control.
+					if !c20BlockedConfirmed.Load() {
+						sc = ts.scrape(150 * time.Second)
+					}
+					if sc.Err != "" && scrapeTimedOut(sc.Err) {
+						for _, h := range held {
+							h.close()
+						}
+						ctl := ts.scrape(150 * time.Second)
+						if ctl.Err == "" && ctl.Status == 200 && ctl.Elapsed < 30*time.Second {
+							scrapeMinTimeout.Store(0)
+							c20BlockedConfirmed.Store(true) // later evaluations in this process (rapid shrinking) need not be as patient
+							return bad(c.Mode+"/held", "metrics:unavailable-under-load", "step %d: with %d requests in flight on the prover address the metrics address did not answer within 160 s, and answered in %v once they were released", si, st.Held, ctl.Elapsed)
+						}
+						return bad(c.Mode+"/held", "harness:overloaded", "step %d: scrapes time out with and without requests in flight (control: status %d err %q after %v)", si, ctl.Status, ctl.Err, ctl.Elapsed)
+					}
+				}
 				if sc.Err != "" || sc.Status != 200 {
 					// the metrics endpoint must stay available on its own address whatever the prover address is busy with
 					for _, h := range held {
@@ -363,6 +391,7 @@ func init() {
 }
 
 func TestC20_Deletion(t *testing.T) {
+	scrapeMinTimeout.Store(int64(150 * time.Second))
 	if _, err := getSystem("deletion", 3, 2); err != nil {
 		t.Fatalf("harness: %v", err)
 	}
@@ -370,8 +399,18 @@ func TestC20_Deletion(t *testing.T) {
 }
 
 func TestC20_Insertion(t *testing.T) {
+	scrapeMinTimeout.Store(int64(150 * time.Second))
 	if _, err := getSystem("insertion", 3, 2); err != nil {
 		t.Fatalf("harness: %v", err)
 	}
 	RunRapid(t, Check[c20Case]{Prop: "C20", Test: "TestC20_Insertion", Gen: genC20("insertion"), Run: runC20})
+}
+
+// c20BlockedConfirmed: a blocked metrics endpoint was established once with full patience and a control scrape.
+var c20BlockedConfirmed atomic.Bool
+
+// scrapeTimedOut reports whether a scrape error is the client's own time limit (as opposed to a refused connection,
+// a reset or a bad status).
+func scrapeTimedOut(e string) bool {
+	return strings.Contains(e, "deadline exceeded") || strings.Contains(e, "Client.Timeout") || strings.Contains(e, "i/o timeout")
 }
